@@ -4,7 +4,7 @@
 From Coq Require Import List Ascii NArith ZArith Bool.
 Import ListNotations.
 Require Import Bytes Mach RuleTables RuleDecode Mask RuleEncode Uapi UapiRule Tables TablesLift RuleTablesOk RuleWire RuleSpecWf.
-Require Import RuleValue Flags RuleBuild RuleBuildShape RuleSwitches RuleSwitchesOk.
+Require Import RuleValue Flags RuleBuild RuleBuildShape RuleSwitches RuleSwitchesOk RuleBuildFacts.
 Open Scope N_scope.
 
 (* every field and operator code of the rule package equals the UAPI constant for the
@@ -86,6 +86,20 @@ Proof. exact build_mask_exact. Qed.
 Theorem C06_mask_range : forall m n, 32 * N.of_nat (length m) <= n -> set_syscall m n = None.
 Proof. exact set_syscall_rejects. Qed.
 
+(* an accepted rule carries the UAPI code of its list and action names, and its mask has exactly the
+   requested syscalls' bits (or the all-syscalls pattern) *)
+Theorem C06_accepted_rule_codes_and_mask : forall s d, data_of_spec s = Some d ->
+  lookupS (s2l (sp_list s)) uapi_lists = Some (w_flags d) /\ lookupS (s2l (sp_action s)) uapi_actions = Some (w_action d) /\
+  (if sp_all s then w_mask d = repeat 4294967295 63 ++ [65535]
+   else forall k, testbit_mask (w_mask d) k = true <-> In k (sp_syscalls s)).
+Proof. exact accepted_rule_codes_and_mask. Qed.
+
+(* the encoded rule's length is a multiple of four, whatever the string area holds *)
+Theorem C06_wire_length_padded : forall d, (List.length (to_wire d) mod 4 = 0)%nat.
+Proof. exact wire_length_padded. Qed.
+
+Print Assumptions C06_accepted_rule_codes_and_mask.
+Print Assumptions C06_wire_length_padded.
 Print Assumptions C06_tables_are_uapi.
 Print Assumptions C06_layout.
 Print Assumptions C06_wire_exact.
